@@ -36,8 +36,40 @@ class ModelError(Exception):
     """The dumped plan is outside what the model covers (reported as inconclusive)."""
 
 
+ED = 16  # domain of eq-sort ids in the symbolic database
+
+
+def eqsort_wellformed(tables):
+    """Union-free eq-sort discipline (an ASSUMPTION of the claim, needed to replay witnesses from the surface
+    language): constructor rows have pairwise distinct ids; an id is larger than the ids among its arguments;
+    every eq-sort value stored anywhere is the id of a present constructor row that is not younger than the row
+    holding it."""
+    cs = []
+    ctor_rows = []
+    for t in tables.values():
+        if t.coltypes[-1] == "E":
+            for cols, pres in t.rows:
+                ctor_rows.append((t, cols, pres))
+    for i in range(len(ctor_rows)):
+        ti, ci, pi = ctor_rows[i]
+        for j in range(i + 1, len(ctor_rows)):
+            tj, cj, pj = ctor_rows[j]
+            cs.append(z3.Not(z3.And(pi, pj, ci[ti.func_cols - 1] == cj[tj.func_cols - 1])))
+        for c in range(ti.func_cols - 1):
+            if ti.coltypes[c] == "E":
+                cs.append(z3.Implies(pi, ci[ti.func_cols - 1] > ci[c]))
+    for t in tables.values():
+        for cols, pres in t.rows:
+            for c in range(t.func_cols - 1):
+                if t.coltypes[c] == "E":
+                    cs.append(z3.Implies(pres, z3.Or([z3.And(pq, cq[tq.func_cols - 1] == cols[c], cq[tq.ts_col] <= cols[t.ts_col])
+                                                      for tq, cq, pq in ctor_rows]) if ctor_rows else z3.BoolVal(False)))
+    return cs
+
+
 class Table:
-    def __init__(self, tid, func_cols, subsume, R, name=None):
+    def __init__(self, tid, func_cols, subsume, R, name=None, coltypes=None):
+        self.coltypes = coltypes or ["i"] * func_cols  # per data column: 'i' (i64), 'E' (eq-sort id), 'id' (relation row id)
         self.tid = tid
         self.func_cols = func_cols
         self.subsume = subsume
@@ -56,7 +88,7 @@ class Table:
         cs = []
         for cols, pres in self.rows:
             for c in range(self.func_cols):
-                cs += [cols[c] >= 0, cols[c] < D]
+                cs += [cols[c] >= 0, cols[c] < (ED if self.coltypes[c] == "E" else D)]
             cs += [cols[self.ts_col] >= 0, cols[self.ts_col] < next_ts]
             if self.subsume:
                 cs += [z3.Or(cols[self.sub_col] == 0, cols[self.sub_col] == 1)]
